@@ -37,7 +37,7 @@ pub fn check_tournament<D: Vertices + Arcs + Order + Size>(d: &D, n: usize, o: &
     let listed: Vec<(usize, usize)> = d.arcs().collect();
     o.check(d.order() == n && m.verts.iter().copied().eq(0..n), &format!("{name}::random_tournament:vertex-set"), || format!("order {} vertices {:?}", d.order(), m.vert_list()));
     o.check(listed.len() == m.size(), &format!("{name}::random_tournament:duplicate-arc-listed"), || format!("{listed:?}"));
-    o.check(m.valid() && m.is_tournament() && m.size() == n * (n - 1) / 2 && d.size() == m.size(), &format!("{name}::random_tournament:not-a-tournament"), || m.describe());
+    o.check(m.valid() && m.is_tournament() && m.size() == n * (n - 1) / 2 && d.size() == m.size(), &format!("{name}::random_tournament:not-a-tournament"), || crate::ctx::clip(&m.describe()));
 }
 
 pub fn check_erdos<D: Vertices + Arcs + Order + Size>(d: &D, n: usize, pr: f64, o: &mut CaseOut, name: &str) {
@@ -45,12 +45,12 @@ pub fn check_erdos<D: Vertices + Arcs + Order + Size>(d: &D, n: usize, pr: f64, 
     let listed: Vec<(usize, usize)> = d.arcs().collect();
     o.check(d.order() == n && m.verts.iter().copied().eq(0..n), &format!("{name}::erdos_renyi:vertex-set"), || format!("order {} vertices {:?}", d.order(), m.vert_list()));
     o.check(listed.len() == m.size() && d.size() == m.size(), &format!("{name}::erdos_renyi:duplicate-arc-listed"), || format!("{listed:?}"));
-    o.check(listed.iter().all(|&(u, v)| u != v && u < n && v < n), &format!("{name}::erdos_renyi:self-loop-or-outside-endpoint"), || m.describe());
+    o.check(listed.iter().all(|&(u, v)| u != v && u < n && v < n), &format!("{name}::erdos_renyi:self-loop-or-outside-endpoint"), || crate::ctx::clip(&m.describe()));
     if pr == 0.0 {
-        o.check(m.size() == 0, &format!("{name}::erdos_renyi:arcs-at-p=0"), || m.describe());
+        o.check(m.size() == 0, &format!("{name}::erdos_renyi:arcs-at-p=0"), || crate::ctx::clip(&m.describe()));
     }
     if pr == 1.0 {
-        o.check(m.size() == n * (n - 1), &format!("{name}::erdos_renyi:missing-arcs-at-p=1"), || m.describe());
+        o.check(m.size() == n * (n - 1), &format!("{name}::erdos_renyi:missing-arcs-at-p=1"), || crate::ctx::clip(&m.describe()));
     }
 }
 
@@ -61,7 +61,10 @@ fn check_tree<D: Vertices + Arcs + Order>(d: &D, n: usize, o: &mut CaseOut, name
         let out = m.out(u);
         out.len() == 1 && out[0] < u
     }) && d.arcs().count() == n - 1;
-    o.check(ok, &format!("{name}::random_recursive_tree:shape"), || m.describe());
+    o.check(ok, &format!("{name}::random_recursive_tree:shape"), || {
+        let bad: Vec<usize> = (1..n).filter(|&u| { let out = m.out(u); !(out.len() == 1 && out[0] < u) }).take(5).collect();
+        crate::ctx::clip(&format!("order {n}: vertices without exactly one out-arc to a smaller id: {bad:?} (out-arcs of vertex 0: {:?}); {}", m.out(0), if n <= 64 { m.describe() } else { String::new() }))
+    });
 }
 
 fn one_type<D>(o: &mut CaseOut, name: &str, n: usize, seed: u64, pr: f64, kind: usize)
@@ -153,6 +156,37 @@ pub fn case(idx: u64, seed: u64, p: &Params, o: &mut CaseOut) {
     };
     let (x, y, z) = (r.next(), r.next(), r.next());
     let gseed = *r.pick(&[0u64, 1, 1 << 63, u64::MAX, x, y, z]);
+    // large orders, rarely: a recursive tree costs O(n), the two quadratic
+    // generators stay below 1300 vertices
+    let big_every = p.u64("big_every", 400);
+    if big_every > 0 && idx % big_every == 7 && max >= 257 {
+        let ty = r.below(4);
+        let tree = r.chance(0.7);
+        let n = if tree {
+            if ty == 2 { *r.pick(&[1000usize, 4097, 6000]) } else { *r.pick(&[5000usize, 20_000, 70_000, 200_000, 500_000]) }
+        } else {
+            *r.pick(&[300usize, 513, 1000, 1291])
+        };
+        let pr = *r.pick(&[0.0, 0.01, 0.5, 1.0]);
+        let kind = if tree { 1 } else { 2 * r.below(2) };
+        match ty {
+            0 => one_type::<AdjacencyList>(o, TYPES[0], n, gseed, pr, kind),
+            1 => one_type::<AdjacencyMap>(o, TYPES[1], n, gseed, pr, kind),
+            2 => one_type::<AdjacencyMatrix>(o, TYPES[2], n, gseed, pr, kind),
+            _ => one_type::<EdgeList>(o, TYPES[3], n, gseed, pr, kind),
+        }
+        let kn = ["random_tournament", "random_recursive_tree", "erdos_renyi"][kind];
+        o.fp = Fp::new().s(TYPES[ty]).s(kn).us(n).u(gseed).u(pr.to_bits()).0;
+        o.nontrivial = true;
+        o.bump("large_order");
+        o.bump(TYPES[ty]);
+        o.bump(kn);
+        o.bumpn("order/16", n / 16);
+        if o.want_desc {
+            o.desc = format!("{}::{kn}(order {n}, p {pr}, seed {gseed})", TYPES[ty]);
+        }
+        return;
+    }
     let eps = f64::EPSILON;
     let pr = *r.pick(&[0.0, eps, 0.25, 0.5, 0.5 + eps, 0.75, 1.0 - eps, 1.0]);
     let kind = r.below(3);
